@@ -56,7 +56,7 @@ UserFixedHonouredOrBlocked ==      \* every selected slot that the user fixed ke
        LET fixedN == {s.n : s \in {last.t.slots[i] : i \in 1..Len(last.t.slots)}} \ {NONE}
            fixedBoth == {s \in {last.t.slots[i] : i \in 1..Len(last.t.slots)} : s.n # NONE /\ s.m # NONE}
            got == {last.out.nm[j] : j \in 1..Len(last.out.nm)}
-       IN /\ \A s \in fixedBoth : (\E g \in got : g.n = s.n) => [n |-> s.n, m |-> s.m] \in got
+       IN /\ \A s \in fixedBoth : [n |-> s.n, m |-> s.m] \in got        \* every fully fixed slot is used as given
           /\ Len(last.out.nm) <= Len(last.t.slots)
 
 FirstFitIsLowest ==                \* a request with a single fully free slot gets the lowest feasible position
